@@ -78,6 +78,21 @@ Definition subject (i : ident) (e : entry) : bool :=
   match i_origin i with OUser => true | _ => false end
   && negb (mem HP (i_memberof i)) && hp_target e && negb (is_self i e) && negb (manager_ok i e).
 
+(* EXTENSION beyond the literal statement — role holders with a limited remit.  These built-in
+   roles are themselves members of HP, but the profiles they receive are written to exclude
+   high-privilege targets (FILTER_ANDNOT_HP_OR_RECYCLED_OR_TOMBSTONE; people admins get the
+   separate idm_acp_hp_people_credential_reset): idm_service_desk, idm_people_on_boarding,
+   idm_group_admins, idm_service_account_admins, idm_oauth2_account_admins. *)
+Definition LIMITED_ROLES : list N := [65; 69; 21; 70; 87].
+(* the user holds no high-privilege group other than HP itself and limited-remit roles *)
+Definition limited_user (i : ident) : bool :=
+  forallb (fun g => negb (mem g (hp_groups nesting)) || (g =? HP) || mem g LIMITED_ROLES) (i_memberof i).
+Definition subject_limited (i : ident) (e : entry) : bool :=
+  match i_origin i with OUser => true | _ => false end
+  && limited_user i && hp_target e && negb (is_self i e) && negb (manager_ok i e).
+(* the pairs on which the check demands a denial *)
+Definition protected_pair (i : ident) (e : entry) : bool := subject i e || subject_limited i e.
+
 (* credential-, session-, account-detail- and membership-bearing attributes (for the statement
    in the property's words; the theorems cover every attribute) *)
 Definition SENSITIVE : list N :=
@@ -194,13 +209,14 @@ Definition agree (c : case) : bool :=
          else refused res && unchanged
   end.
 
-(* the property on what the implementation did: under the property's hypotheses every verdict is a
-   denial, no operation succeeds and nothing changes; the dumped data meets the criterion *)
+(* the property on what the implementation did: under the property's hypotheses (and for the
+   limited-remit role holders of the extension) every verdict is a denial, no operation succeeds
+   and nothing changes; the dumped data meets the criterion *)
 Definition pcheck (c : case) : bool :=
   match c with
   | CData A n => data_safe A n
   | CReqs _ _ => true
-  | CPair i e th allowed del => if subject i e then is_empty allowed && negb del else true
-  | CSrv i e ml res unchanged => if subject i e then negb (sres_ok res) && unchanged else true
+  | CPair i e th allowed del => if protected_pair i e then is_empty allowed && negb del else true
+  | CSrv i e ml res unchanged => if protected_pair i e then negb (sres_ok res) && unchanged else true
   end.
 Definition known (_ : case) : bool := false.
